@@ -1,6 +1,7 @@
 package main
 
 import (
+	"verif/internal/refp7"
 	"bytes"
 	"crypto"
 	"crypto/x509"
@@ -550,6 +551,66 @@ func checkC13(r *mon.Run) {
 		}
 		for _, h := range blobHostiles(r, s.Blob, s.Producer, si) {
 			all = append(all, sess{"p7.session", h, p})
+		}
+	}
+	// single fields of several MiB (DER bounds none of them): serial number, issuer name string,
+	// messageDigest, signature, a signed-attribute OID
+	if len(seeds) > 0 {
+		size := r.N(6, 12) << 20
+		for fi, field := range []string{"serial", "issuer-string", "messageDigest", "signature", "version"} {
+			if !r.Thorough() && fi >= 3 {
+				break
+			}
+			t, err := loadP7Tree(seeds[0].Blob)
+			if err != nil {
+				break
+			}
+			sp := t.signer(0)
+			if sp == nil {
+				break
+			}
+			big := make([]byte, size)
+			for k := range big {
+				big[k] = byte(0x31 + k%9)
+			}
+			big[0] = 0x01
+			switch field {
+			case "serial":
+				if len(sp.ias.Kids) > 1 {
+					sp.ias.Kids[1].Prim = big
+				}
+			case "issuer-string":
+				// first string found inside the issuer name
+				var walk func(n *refder.Tree) bool
+				walk = func(n *refder.Tree) bool {
+					if n.Kids == nil && (n.Tag == 0x0c || n.Tag == 0x13) {
+						n.Prim = big
+						return true
+					}
+					for _, k := range n.Kids {
+						if walk(k) {
+							return true
+						}
+					}
+					return false
+				}
+				walk(sp.ias.Kids[0])
+			case "messageDigest":
+				if sp.attrs != nil {
+					if mi := findAttr(sp.attrs, refp7.OIDMessageDigest); mi >= 0 {
+						sp.attrs.Kids[mi].Kids[1].Kids[0].Prim = big
+					}
+				}
+			case "signature":
+				sp.sig.Prim = big
+			case "version":
+				t.sd.Kids[0].Prim = big
+			}
+			p := map[string]string{"foreign": fmt.Sprintf("%x", foreign.Raw)}
+			if seeds[0].Right != nil {
+				p["cert"] = fmt.Sprintf("%x", seeds[0].Right.Raw)
+			}
+			all = append(all, sess{"p7.session", hostile{t.root.Encode(), "huge-field", field, fmt.Sprint(size >> 20), seeds[0].Producer}, p})
 		}
 	}
 	// large structured inputs: time must stay linear in the size
